@@ -5,6 +5,7 @@ import (
 	"go/types"
 	"os"
 	"sort"
+	"strconv"
 	"strings"
 	"sync"
 	"time"
@@ -64,9 +65,38 @@ func (d Decision) String() string {
 		}
 		return fmt.Sprintf("b%d", d.N)
 	case DConc:
+		if d.Forced {
+			return fmt.Sprintf("c%d!", d.N)
+		}
 		return fmt.Sprintf("c%d", d.N)
 	}
 	return fmt.Sprintf("x%v", d.Excl)
+}
+
+// ParseDecisions reads the decision vector of a replay file (the format of
+// Decision.String, space separated). ok is false when the vector holds an
+// exclusion decision, which is not replayable by itself.
+func ParseDecisions(s string) (ds []Decision, ok bool) {
+	for _, f := range strings.Fields(s) {
+		forced := strings.HasSuffix(f, "!")
+		f = strings.TrimSuffix(f, "!")
+		if len(f) < 2 {
+			return nil, false
+		}
+		n, err := strconv.ParseUint(f[1:], 10, 64)
+		if err != nil {
+			return nil, false
+		}
+		switch f[0] {
+		case 'b':
+			ds = append(ds, Decision{Kind: DBranch, N: n, Forced: forced})
+		case 'c':
+			ds = append(ds, Decision{Kind: DConc, N: n, Forced: forced})
+		default:
+			return nil, false
+		}
+	}
+	return ds, true
 }
 
 type Input struct {
@@ -94,6 +124,7 @@ type PathResult struct {
 	Violation *Violation
 	Steps     int
 	Decisions int
+	Sched     [3]int
 	Sample    map[string]string
 }
 
@@ -139,6 +170,7 @@ type Exec struct {
 	pinned        map[string]uint64 // variables the path condition equates with a constant
 	pinEval       *sym.Evaluator
 	sch           *scheduler
+	schedStats    [3]int // goroutines, switches, deviations of the path just ended
 	atomicDepth   int
 
 	// cumulative
@@ -159,6 +191,10 @@ type Job struct {
 	Replace map[string]*ssa.Function
 	Cuts    map[string]*ssa.Function
 	Meta    map[string]string
+	// Prefix, when set, is the decision vector to start from; with Single the
+	// alternatives met along it are not explored (exact replay of one path).
+	Prefix []Decision
+	Single bool
 }
 
 func NewExec(prog *ssa.Program, cfg *Config) (*Exec, error) {
@@ -1000,8 +1036,13 @@ func (ex *Exec) RunPath(job *Job, prefix []Decision) (res PathResult, alts [][]D
 			ex.schedKillAll()
 		}()
 		alts = ex.pending
+		if job.Single {
+			alts = nil
+		}
 		res.Steps = ex.steps
 		res.Decisions = len(ex.trace)
+		res.Sched = ex.schedStats
+		ex.schedStats = [3]int{}
 		if r != nil {
 			switch r := r.(type) {
 			case pathEnd:
@@ -1123,6 +1164,8 @@ type JobResult struct {
 	Reached      map[string]int
 	Wall         time.Duration
 	MaxDecisions int
+	SchedMax     [3]int // tier 2: most goroutines, switches, departures from the default schedule on one path
+	Switches     int64  // tier 2: goroutine switches over all paths
 	Samples      []map[string]string // input models of completed (passing) paths, for the native differential run
 }
 
@@ -1148,7 +1191,7 @@ func Explore(prog *ssa.Program, cfg *Config, jobs []*Job, nworkers int) ([]*JobR
 	results := make([]*JobResult, len(jobs))
 	for i := len(jobs) - 1; i >= 0; i-- {
 		results[i] = &JobResult{Job: jobs[i], AssertsHit: map[string]int{}, Reached: map[string]int{}}
-		stack = append(stack, workItem{jobs[i], results[i], nil})
+		stack = append(stack, workItem{jobs[i], results[i], jobs[i].Prefix})
 	}
 	active := 0
 	stats := &Stats{Funcs: map[string]string{}, Intrinsics: map[string]int{}}
@@ -1201,6 +1244,12 @@ func Explore(prog *ssa.Program, cfg *Config, jobs []*Job, nworkers int) ([]*JobR
 				if res.Decisions > jr.MaxDecisions {
 					jr.MaxDecisions = res.Decisions
 				}
+				for k := 0; k < 3; k++ {
+					if res.Sched[k] > jr.SchedMax[k] {
+						jr.SchedMax[k] = res.Sched[k]
+					}
+				}
+				jr.Switches += int64(res.Sched[1])
 				switch res.Kind {
 				case endDone:
 					jr.Done++
